@@ -377,7 +377,14 @@ def simple_aliases(f, with_tests=False):
             return pure_test(e.operand)
         return False
     ok = pure_test if with_tests else pure
-    return {n: v for n, v in rhs.items() if cnt.get(n) == 1 and n not in params and ok(v) and not isinstance(v, (ast.Name, ast.Constant))}
+    def fresh(n):
+        # a parameter that is re-bound once before anything reads it is a local from then on
+        if n not in params:
+            return True
+        line = rhs[n].lineno
+        return not any(isinstance(y, ast.Name) and y.id == n and isinstance(y.ctx, ast.Load) and y.lineno <= line for y in ast.walk(f.node)) \
+            and any(rhs[n] is getattr(st, 'value', None) for st in f.node.body)
+    return {n: v for n, v in rhs.items() if cnt.get(n) == 1 and fresh(n) and ok(v) and not isinstance(v, (ast.Name, ast.Constant))}
 
 
 def expand(f, node, aliases=None):
